@@ -1,0 +1,10 @@
+//go:build verif
+
+package sender
+
+// Worker exposes the sender worker so that the verification harness can call
+// the production Process (receiver resolution, body building) and register
+// simulated transports with AddPlugin.
+func (s *Sender) Worker() *SenderWorker {
+	return s.worker
+}
